@@ -171,7 +171,10 @@ def map_lrepr(  # pylint: disable=too-many-locals
 
         def entries_ns_remove():
             for k, v in entries():
-                yield (k.with_name(k.name), v)
+                bare = k.with_name(k.name)
+                if isinstance(k, IWithMeta) and k.meta is not None:
+                    bare = bare.with_meta(k.meta)
+                yield (bare, v)
 
         entries_updated = entries_ns_remove
 
